@@ -558,7 +558,8 @@ def _dy(rng, hi, e):
 
 def _tree_axis_leafs(rng, d, r, rule, e0, zero, tie, with_ggt, dim_field):
     """One `_AxisState` as a spec dict."""
-    ax = {"eigvecs": ["shape", [d, r]], "inv_eigvals": ["o", "arr"], "inv_tail": ["o", "arr"]}
+    # with a `dim` entry the group key is that entry, NOT eigvecs.shape[0]: make the two differ
+    ax = {"eigvecs": ["shape", [d + (rng.choice([0, 1, 3]) if dim_field else 0), r]], "inv_eigvals": ["o", "arr"], "inv_tail": ["o", "arr"]}
     if zero:
         ev = [0.0] * r
         tail = 0.0
@@ -622,7 +623,7 @@ def gen_tree_case(rng, cid, malformed=None):
     unsk = []
     for _ in range(rng.randint(0, 3)):
         while True:
-            path = [rng.choice(["enc", "dec", "norm", "bias"]) + str(rng.randint(0, 30)) for _ in range(rng.randint(1, 3))]
+            path = [rng.choice(["enc", "dec", "norm", "bias", "b"]) + str(rng.randint(0, 30)) for _ in range(rng.randint(1, 3))]
             if not any(u[:len(path)] == path or path[:len(u)] == u for u in used):
                 used.append(path)
                 break
@@ -922,6 +923,14 @@ def evaluate_tree(ctx, case, obs, rep_f, rep_q, stats, recip):
                                                "impl": obs.get("result", obs.get("assertion", obs.get("exception")))})
     elif not hyp:
         stats["tree:hypothesis_not_met"] += 1
+        # the generated states satisfy the Sketchy invariants (tail >= 0, eigvals >= 0, ema_ggt diagonal >= 0 and not all
+        # zero for ggt_intrinsic_rank): every rule must then give finite non-negative scores (the `scores_nonneg` clause)
+        if scores:
+            badsc = {n: s for n, s in scores.items() if not (math.isfinite(s) and s >= 0)}
+            stats["violations:tree_scores"] += 1
+            ctx.violation(f"score_fn({case['rule']}, running_average={case['avg']}) is negative / not finite on a state satisfying the "
+                          f"Sketchy invariants: {dict(list(badsc.items())[:3])}",
+                          {"case": _slim(case), "scores": obs.get("scores"), "order": obs.get("order")})
 
 
 def _slim(case):
